@@ -2,12 +2,13 @@
 // front end from bytes, C04 validator, C01 synchronous executor), so that the composed model
 // Pipe/Compose.v can be run on the very bytes and compared with graphql.Execute.
 //
-// Envelope: schemas of c01's family (objects, interfaces, unions, enums, the five built-in scalars
-// and renamed copies, no field arguments, no subscriptions, no feature gates); resolvers that answer
+// Envelope: schemas of c01's families (objects, interfaces, unions, enums, the five built-in scalars
+// and renamed copies; the argument family: fields with arguments, defaults, required and list
+// arguments, typed variables; no input objects, no subscriptions, no feature gates); resolvers that answer
 // from a finite outcome tree handed in as Request.InitialValue; the request TEXT is anything (the
 // generated document, with selections validation refuses, with names replaced, with token-level or
-// byte-level damage).  The coerced variables (what @skip/@include see) are observed by calling
-// the real validator.CoerceVariableValues on the selected operation.
+// byte-level damage); the raw variable values (Request.VariableValues) go to the model as they are:
+// variable and argument coercion are inside the composed model (C05's model through C01's).
 package main
 
 import (
@@ -18,7 +19,6 @@ import (
 
 	"github.com/ccbrown/api-fu/graphql"
 	"github.com/ccbrown/api-fu/graphql/ast"
-	"github.com/ccbrown/api-fu/graphql/executor"
 	"github.com/ccbrown/api-fu/graphql/parser"
 	"github.com/ccbrown/api-fu/graphql/validator"
 
@@ -28,7 +28,7 @@ import (
 	"verifharness/internal/sexp"
 )
 
-var composedKinds = []string{"plain", "plain", "hostile", "renamed", "renamed", "mutated", "raw", "vars"}
+var composedKinds = []string{"plain", "args", "hostile", "renamed", "args-renamed", "mutated", "raw", "vars", "args-vars", "plain"}
 
 var composedWords = []string{"__typename", "__schema", "__type", "name", "kind", "queryType", "query", "mutation", "subscription", "fragment", "on",
 	"skip", "include", "if", "true", "false", "null", "Boolean", "Int", "String", "$v0", "$v1", "$v2", "Main", "X1", "F1", "F2", "CY", "y_f0", "zt", "m"}
@@ -57,27 +57,17 @@ func locsNode(ls []graphql.Location) sexp.Node {
 	return sexp.L(out...)
 }
 
-// the coerced variables as far as @skip/@include look at them: booleans and explicit nulls
-func envNode(coerced map[string]interface{}) sexp.Node {
-	env := map[string]*bool{}
-	for k, v := range coerced {
-		switch v := v.(type) {
-		case bool:
-			b := v
-			env[k] = &b
-		case nil:
-			env[k] = nil
-		}
-	}
-	return exe.EnvSexp(env)
-}
-
 func composedCase(r *rng.R, kind string) sexp.Node {
-	in := exe.Generate(r, kind == "hostile")
+	var in *exe.Input
+	if strings.HasPrefix(kind, "args") {
+		in = exe.GenerateArgs(r)
+	} else {
+		in = exe.Generate(r, kind == "hostile")
+	}
 	text := in.Text
 	vars := in.Vars
 	switch kind {
-	case "renamed":
+	case "renamed", "args-renamed":
 		text = mutateNamesWith(r, text, append(in.Vocabulary(), composedWords...))
 	case "mutated":
 		text = mutate(r, text)
@@ -92,14 +82,15 @@ func composedCase(r *rng.R, kind string) sexp.Node {
 			i := r.Intn(len(text) + 1)
 			text = text[:i] + junk + text[i:]
 		}
-	case "vars":
+	case "vars", "args-vars":
 		// raw variable values the declarations may not accept
 		vars = map[string]interface{}{}
 		for k, v := range in.Vars {
 			vars[k] = v
 		}
 		for i, n := 0, r.Range(1, 2); i < n; i++ {
-			vars[rng.Pick(r, []string{"v0", "v1", "v2", "zz"})] = rng.Pick(r, []interface{}{true, false, nil, 1.0, "true", []interface{}{true}, map[string]interface{}{}})
+			vars[rng.Pick(r, []string{"v0", "v1", "v2", "zz", "n", "s", "b", "xs", "x"})] = rng.Pick(r, []interface{}{true, false, nil, 1.0, 2, 1.5, 2147483648.0, "true", "x",
+				[]interface{}{true}, []interface{}{1.0, 2.0}, []interface{}{1.0, nil}, struct{}{}})
 		}
 	}
 	s, err := in.Build()
@@ -119,7 +110,6 @@ func composedCase(r *rng.R, kind string) sexp.Node {
 	}()
 	world := sexp.Sym("nil")
 	var initial interface{}
-	coerced := sexp.Sym("none") // no operation selected, or not reached
 	if doc != nil {
 		valid := false
 		func() {
@@ -129,16 +119,6 @@ func composedCase(r *rng.R, kind string) sexp.Node {
 		if valid {
 			w := in.NewWorld(r, doc)
 			world, initial = w.Sexp(), w.Value()
-			func() {
-				defer func() { recover() }()
-				if op, err := executor.GetOperation(doc, in.OpName); err == nil {
-					if cv, err := validator.CoerceVariableValues(s, nil, op, vars); err == nil {
-						coerced = sexp.T("ok", envNode(cv))
-					} else {
-						coerced = sexp.Sym("rejected")
-					}
-				}
-			}()
 		}
 	}
 	o := guarded(func() outcome {
@@ -170,7 +150,7 @@ func composedCase(r *rng.R, kind string) sexp.Node {
 		sexp.T("features", sexp.L()),
 		sexp.T("vschema", vld.SchemaSexp(s, in.ScalarKinds())),
 		sexp.T("eschema", in.SchemaSexp()),
-		sexp.T("coerced", coerced),
+		sexp.T("rawvars", exe.VarsSexp(vars)),
 		sexp.T("world", world),
 		sexp.T("outcome", sexp.Sym(o.class), sexp.Str(o.detail)), respNode(o),
 		sexp.T("observed", observed))
